@@ -73,9 +73,14 @@ def run(res, tier, br, model_ok=True, search=False):
             progs.append(q)
     # every binary operator between every kind of operand, correctly spaced: nothing is reported on that line
     from props.C02 import BIN, LEFT, RIGHT
+    # operands that end or begin like something else: sizeof of pointer and user types, casts of them, dereferences
+    LEFT = dict(LEFT, **{"sizeof-tp": "sizeof(t_list *)", "sizeof-tpp": "sizeof(t_node **)", "sizeof-sp": "sizeof(struct s_x *)", "sizeof-cp": "sizeof(char *)",
+                         "sizeof-t": "sizeof(t_list)", "sizeof-expr": "sizeof(*p)", "castp": "(t_list *)p == 0", "deref": "*p", "idx2": "t[1][2]"})
+    RIGHT = dict(RIGHT, **{"sizeof-tp": "sizeof(t_list *)", "sizeof-sp": "sizeof(struct s_x **)", "par": "(n + 1)", "deref": "*p", "cast": "(int)b"})
     combos = [(op, lk, rk) for op in BIN for lk in LEFT for rk in RIGHT]
     from impl import pipeline as _pipe
-    for op, lk, rk in (combos if big else rng.sample(combos, 250)):
+    # `*` and `&` double as pointer and address signs: every pair of operands around them, always
+    for op, lk, rk in (combos if big else rng.sample(combos, 250) + [c for c in combos if c[0] in ("*", "&")]):
         src = "int\tf(int a, int b)\n{\n\tx = %s %s %s;\n\treturn (a);\n}\n" % (LEFT[lk], op, RIGHT[rk])
         r = _pipe("m.c", src)
         res.count("conforming.matrix", 1)
@@ -116,6 +121,23 @@ def run(res, tier, br, model_ok=True, search=False):
                        {"kind": "conforming-cli", "files": {p.name: p.text for p in sample}})
     finally:
         shutil.rmtree(tmp, ignore_errors=True)
+    # conforming files whose comments and strings hold characters outside ASCII (one column each), on lines of exactly
+    # 80 columns: stored as UTF-8 and read by the real command line
+    import diskcheck
+    from props.C03 import padx
+    for ch in (diskcheck.NON_ASCII if big else rng.sample(diskcheck.NON_ASCII, 2)):
+        nm = "ft_usage.c"
+        body = ("\n" + padx("/* ", 77, ch) + " */\n" + padx("// ", 80, ch) + "\n\nint\tft_usage(char *msg)\n{\n" + padx("\tmsg = \"", 78, ch) + "\";\n"
+                + "\treturn (msg[0] == '" + ch[0] + "');\n}\n")
+        src = families.header.header42(nm) + body
+        got = diskcheck.from_disk({nm: src})
+        res.count("conforming.disk", 1)
+        res.nontriv(("disk", ch))
+        ent = (got["files"].get(nm) or [None])[0]
+        errs = [x for x in (ent["diags"] if ent else []) if x[0] == "Error"]
+        if ent is None or ent["status"] != "OK" or errs or got["exit"] != 0:
+            res.report(f"conforming:{errs[0][1] if errs else 'cli'}", f"{nm} with {ch!r} in comments and strings, read from disk: {ent and ent['status']}, exit {got['exit']}, {errs[:3]}",
+                       {"kind": "conforming-disk", "name": nm, "src": src})
     res.sample({"conforming": progs[0].text[880:1300]})
 
 
@@ -126,6 +148,12 @@ def replay(rp):
         bad = [(d[0], d[3][0][1]) for d in r["diags"] if d[3] and d[3][0][0] == rp["line"]]
         print(rp["src"]); print("on line", rp["line"], ":", bad)
         return 1 if (bad or r["outcome"] != "ok") else 0
+    if rp.get("kind") == "conforming-disk":
+        import diskcheck
+        got = diskcheck.from_disk({rp["name"]: rp["src"]})
+        ent = (got["files"].get(rp["name"]) or [None])[0]
+        print(rp["src"][860:]); print("from disk:", ent, "exit", got["exit"])
+        return 0 if (ent and ent["status"] == "OK" and got["exit"] == 0) else 1
     if rp.get("kind") != "conforming":
         print("replay:", rp.get("kind"), rp.get("broken"))
         return 1
